@@ -220,12 +220,12 @@ class Ctx:
             raise AnalysisError(what)
 
     def floor(self, rule, minimum):
+        """Instance floor: how many instances of the rule were confirmed by hand on the reviewed tree.  Finding fewer
+        means part of the code is no longer seen by the rule: recorded as unresolved (the run is not a violation; a check
+        that decides nothing at all is an analysis error, see run_property)."""
         n = sum(1 for i in self.instances if i["rule"] == rule) + sum(1 for u in self.unresolved if u["rule"] == rule)
-        if n < minimum and not self.findings:  # a reported violation is never masked by a floor
-            raise AnalysisError(
-                f"rule {rule}: only {n} instances found, at least {minimum} were "
-                f"confirmed by hand; the analysis no longer sees the code it was written for"
-            )
+        if n < minimum:
+            self.unres(rule, f"floor:{rule}", f"only {n} instances of the rule were found; {minimum} were confirmed by hand on the reviewed tree")
         return n
 
     def count(self, rule):
@@ -322,6 +322,9 @@ def run_property(prop, fn, tier, seed, src=None, write=True, out=sys.stdout, mod
         )
         status = 2
 
+    if status == 0 and not ctx.instances and not ctx.findings:
+        err = "no rule instance could be decided: the analysis no longer sees the code it was written for" + (f" ({ctx.unresolved[0]['why']})" if ctx.unresolved else "")
+        status = 2
     known = known_for(prop)
     new, matched = [], []
     for f in ctx.findings:
